@@ -248,18 +248,20 @@ pub fn emit_one_match(match_len: u32, match_dist: u32) -> OneMatch {
     record_match(&mut huff, &mut lz, match_len, match_dist);
     let count0 = huff.count[0];
     let count1 = huff.count[1];
-    let mut k = 0usize;
-    while k < MAX_HUFF_SYMBOLS_0 {
-        huff.codes[0][k] = k as u16;
-        huff.code_sizes[0][k] = 9;
-        k += 1;
-    }
-    let mut m = 0usize;
-    while m < MAX_HUFF_SYMBOLS_1 {
-        huff.codes[1][m] = m as u16;
-        huff.code_sizes[1][m] = 5;
-        m += 1;
-    }
+    // Identity code tables, built at compile time so the probe itself has no loops.
+    const IDENT: [u16; MAX_HUFF_SYMBOLS] = {
+        let mut a = [0u16; MAX_HUFF_SYMBOLS];
+        let mut i = 0;
+        while i < MAX_HUFF_SYMBOLS {
+            a[i] = i as u16;
+            i += 1;
+        }
+        a
+    };
+    huff.codes[0] = IDENT;
+    huff.code_sizes[0] = [9; MAX_HUFF_SYMBOLS];
+    huff.codes[1] = IDENT;
+    huff.code_sizes[1] = [5; MAX_HUFF_SYMBOLS];
     let mut buf = [0u8; 32];
     let mut out = OutputBufferOxide {
         inner: &mut buf[..],
